@@ -82,50 +82,75 @@ theorem honours_class (r : Row) (h : honours r = true) (arg : String) (enF : Opt
   obtain ⟨⟨⟨⟨⟨⟨⟨h1, h2⟩, h3⟩, _⟩, h5⟩, h6⟩, _⟩, _⟩ := h
   simp [applyClassRow, h1, guardFires, h3, early, h5, h2, h6]
 
-/-- **disabled ⇒ identity**, for all seven decorators, functions and classes, with or without docstrings, however the
-    decorator was obtained: the very object comes back (`same`), its `__dict__` is untouched (`dictSame`), nothing is
-    imposed on later calls (`plain`), and the decoration itself checks nothing (it cannot be `.raised`) -/
-theorem disabled_is_identity (d : Deco) (t : Target) (enF : Option Bool) (hk : d.onClass = t.isClass) :
+theorem honours_opaque (r : Row) (h : honours r = true) (enF : Option Bool) :
+    applyOpaqueRow r enF false = .ok true true .plain := by
+  simp only [honours, Bool.and_eq_true, beq_iff_eq, Bool.not_eq_true'] at h
+  obtain ⟨⟨⟨⟨⟨⟨⟨h1, h2⟩, h3⟩, _⟩, h5⟩, h6⟩, _⟩, _⟩ := h
+  simp [applyOpaqueRow, h1, guardFires, h3, early, h5, h2, h6]
+
+/-- **disabled ⇒ identity, whatever the object is**: for all seven decorators, however the decorator was obtained, and for EVERY
+    target — functions and classes with or without docstrings, and every object the decorators are not made for (`odd`: no
+    source, builtin, partial, callable instance, lambda, contradictory docstring, Enum, dataclass, …; a class handed to a function
+    decorator, a function handed to a class decorator): the very object comes back (`same`), its `__dict__` is untouched
+    (`dictSame`), nothing is imposed on later calls (`plain`), and the decoration itself checks nothing — it cannot be `.raised`,
+    and it cannot be `.unspecified` (nothing looks at the object before the early `return`). -/
+theorem disabled_is_identity (d : Deco) (t : Target) (enF : Option Bool) :
     decoOut d t enF false = .ok true true .plain := by
   obtain ⟨r, hl, hm⟩ := rows_cover d
   have hh := rows_honour r hm
-  simp only [decoOut, hk, bne_self_eq_false, Bool.false_eq_true, ↓reduceIte, hl]
+  simp only [decoOut, hl]
   split
-  · exact honours_class r hh _ _ _
-  · exact honours_fn r hh _ _
+  · exact honours_opaque r hh _
+  · split
+    · exact honours_class r hh _ _ _
+    · exact honours_fn r hh _ _
 
-example : decoOut .pedanticClassDoc ⟨true, false, true⟩ none false = .ok true true .plain := by decide
+example : decoOut .pedanticClassDoc ⟨true, false, true, false⟩ none false = .ok true true .plain := by decide
+-- an object without source text / a builtin handed to `pedantic`, an Enum handed to `pedantic_class`, a class handed to `pedantic`
+example : decoOut .pedantic ⟨false, false, false, true⟩ none false = .ok true true .plain := by decide
+example : decoOut .pedanticClass ⟨true, false, false, true⟩ (some true) false = .ok true true .plain := by decide
+example : decoOut .pedanticDoc ⟨true, true, true, false⟩ none false = .ok true true .plain := by decide
 
 /-- **enabled ⇒ they check**: a missing required docstring is rejected at decoration; otherwise a function decorator
     yields a new object, a class decorator the class itself with replaced members, and in both cases later calls are
     checked (pedantic family) / wrapped (trace, timer) — fixed for good (`frozen`), not consulted again -/
-theorem enabled_checks (d : Deco) (t : Target) (enF : Option Bool) (hk : d.onClass = t.isClass) :
+theorem enabled_checks (d : Deco) (t : Target) (enF : Option Bool) (hk : fits d t = true) :
     decoOut d t enF true =
       if d.requiresDoc && !t.hasDoc then .raised else .ok d.onClass (!d.onClass) (.frozen d.effect) := by
-  obtain ⟨c, hd, fu⟩ := t
-  cases d with
-  | forAll i => cases i <;> cases c <;> cases hd <;> first | rfl | cases hk
-  | _ => cases c <;> cases hd <;> first | rfl | cases hk
+  obtain ⟨c, hd, fu, op⟩ := t
+  cases op
+  · cases d with
+    | forAll i => cases i <;> cases c <;> cases hd <;> first | rfl | cases hk
+    | _ => cases c <;> cases hd <;> first | rfl | cases hk
+  · cases hk
 
-example : decoOut .pedantic ⟨false, true, false⟩ none true = .ok false true (.frozen .checks) := by decide
-example : decoOut .traceClass ⟨true, false, false⟩ none true = .ok true false (.frozen .prints) := by decide
-example : decoOut (.forAll .pedanticDoc) ⟨true, false, true⟩ none true = .raised := by decide
+/-- enabled, and the object is not one the decorator is made for: the model claims nothing (and the specification neither) -/
+theorem enabled_opaque_unspecified (d : Deco) (t : Target) (enF : Option Bool) (hk : fits d t = false) :
+    decoOut d t enF true = .unspecified := by
+  obtain ⟨c, hd, fu, op⟩ := t
+  cases d with
+  | forAll i => cases i <;> cases c <;> cases op <;> first | rfl | cases hk
+  | _ => cases c <;> cases op <;> first | rfl | cases hk
+
+example : decoOut .pedantic ⟨false, true, false, false⟩ none true = .ok false true (.frozen .checks) := by decide
+example : decoOut .traceClass ⟨true, false, false, false⟩ none true = .ok true false (.frozen .prints) := by decide
+example : decoOut (.forAll .pedanticDoc) ⟨true, false, true, false⟩ none true = .raised := by decide
+example : fits .pedantic ⟨false, false, false, true⟩ = false ∧ fits .traceClass ⟨false, true, false, false⟩ = false := by decide
 
 /-- the outcome of a decoration in closed form: a function of the switch value *at that moment* only -/
 def closed (d : Deco) (t : Target) (en : Bool) : DecoOut :=
-  if d.onClass != t.isClass then .noRow
-  else if !en then .ok true true .plain
+  if !en then .ok true true .plain
+  else if !fits d t then .unspecified
   else if d.requiresDoc && !t.hasDoc then .raised
   else .ok d.onClass (!d.onClass) (.frozen d.effect)
 
 theorem decoOut_closed (d : Deco) (t : Target) (enF : Option Bool) (en : Bool) :
     decoOut d t enF en = closed d t en := by
-  by_cases hk : d.onClass = t.isClass
-  · cases en
-    · simp [closed, hk, disabled_is_identity d t enF hk]
+  cases en
+  · simp [closed, disabled_is_identity d t enF]
+  · cases hk : fits d t
+    · simp [closed, hk, enabled_opaque_unspecified d t enF hk]
     · simp [closed, hk, enabled_checks d t enF hk]
-  · have : (d.onClass != t.isClass) = true := by simpa using hk
-    simp [decoOut, closed, this]
 
 /-! ## 3. histories -/
 
@@ -223,6 +248,7 @@ theorem exec_preserves (s : St) (ops : List Op) (h : Nat) (m : Mode) (hh : s.han
 def closedMode (d : Deco) (t : Target) (en : Bool) : Mode :=
   match closed d t en with
   | .ok _ _ m => m
+  | .unspecified => .unknown
   | _ => .dead
 
 theorem finish_closed (s : St) (d : Deco) (t : Target) (en : Bool) :
@@ -263,21 +289,21 @@ theorem reapply_handles (s : St) (k h : Nat) (f : Factory) (t : Target) (hf : s.
 
 /-- what a call on a decoration result shows, as a function of the switch **when the decorator was applied** only -/
 def frozenCall (en : Bool) (d : Deco) (t : Target) (k : CallKind) : Obs :=
-  if d.onClass != t.isClass then .bad
-  else if !en then .called false false false
+  if !en then .called false false false          -- decorated while off: nothing imposed, whatever the object is
+  else if !fits d t then .unspecified
   else if d.requiresDoc && !t.hasDoc then .bad
   else effObs d.effect k
 
 theorem callObs_closedMode (d : Deco) (t : Target) (en : Bool) (now : Option Bool) (k : CallKind) :
     callObs (closedMode d t en) now k = frozenCall en d t k := by
   unfold closedMode closed frozenCall
-  by_cases h1 : (d.onClass != t.isClass) = true
-  · simp [h1, callObs]
-  · cases en
-    · simp [h1, callObs]
+  cases en
+  · simp [callObs]
+  · by_cases h1 : fits d t = true
     · by_cases h2 : (d.requiresDoc && !t.hasDoc) = true
       · simp [h1, h2, callObs]
       · simp [h1, h2, callObs]
+    · simp [h1, callObs]
 
 /-- **C09, read at decoration — all histories.**  Start anywhere (`s`), run any history `pre`, apply any of the seven
     decorators to any target, run any further history `post` (setenv / unsetenv / enable_pedantic / disable_pedantic /
@@ -354,11 +380,11 @@ theorem read_at_application (s : St) (pre mid post : List Op) (d : Deco) (t : Ta
   have h2 := exec_preserves _ post _ _ h1
   simp only [step, h2, callObs_closedMode]
 
-example : lastObs (init none) [.disable, .factory .pedantic, .enable, .apply 0 ⟨false, true, false⟩, .disable, .call 0 .positional]
+example : lastObs (init none) [.disable, .factory .pedantic, .enable, .apply 0 ⟨false, true, false, false⟩, .disable, .call 0 .positional]
     = some (.called true false false) := by decide
-example : lastObs (init none) [.disable, .decorate .pedanticClass ⟨true, true, false⟩, .enable, .call 0 .positional]
+example : lastObs (init none) [.disable, .decorate .pedanticClass ⟨true, true, false, false⟩, .enable, .call 0 .positional]
     = some (.called false false false) := by decide
-example : lastObs (init (some "0")) [.unsetenv, .decorate .timerClass ⟨true, false, false⟩, .disable, .setenv "0", .call 0 .good]
+example : lastObs (init (some "0")) [.unsetenv, .decorate .timerClass ⟨true, false, false, false⟩, .disable, .setenv "0", .call 0 .good]
     = some (.called false true false) := by decide
 
 /-! ## 3b. the same function object handed to a decorator again -/
@@ -434,20 +460,41 @@ theorem exec_aligned (s : St) (ops : List Op) (ha : Aligned s) : Aligned (exec s
   | nil => exact ha
   | cons o rest ih => exact ih _ (step_aligned s o ha)
 
-/-- **C09, the object's past does not matter — disabled.**  A function object that was handed to a decorator before (whatever
-    the switch said then, whatever came out) is handed to `pedantic` / `pedantic_require_docstring` again while the switch
-    is off: the very object comes back, untouched — no wrapper made earlier is returned in its place -/
+/-- **C09, the object's past does not matter — disabled.**  An object (a function, or any callable the decorators are not made
+    for) that was handed to a decorator before (whatever the switch said then, whatever came out) is handed to any of the
+    decorators again while the switch is off: the very object comes back, untouched — no wrapper made earlier is returned in
+    its place -/
 theorem redecorate_disabled_is_identity (s : St) (d : Deco) (h : Nat) (t : Target) (ht : again s.targets h = some t)
-    (hd : d.onClass = false) (hoff : enabledAt s.env = false) :
+    (hoff : enabledAt s.env = false) :
     (step s (.redecorate d h)).2 = .decorated true true ∧
     (step s (.redecorate d h)).1.handles = s.handles ++ [.plain] := by
-  have htc : t.isClass = false := by
-    unfold again at ht; split at ht
-    · split at ht <;> simp_all
-    · cases ht
   have hen : isEnabledE s.env = some false := by rw [enabled_exact]; simpa [enabledAt] using hoff
-  have hk : d.onClass = t.isClass := by rw [hd, htc]
-  simp [step, ht, decorateNow, hen, disabled_is_identity d t _ hk, finish, push]
+  simp [step, ht, decorateNow, hen, disabled_is_identity d t _, finish, push]
+
+/-- **C09, disabled ⇒ identity, in every state of every history**: whatever happened before (state `s`), with the switch off any
+    of the seven decorators applied to ANY target — ordinary or not — is observed to return the very object, untouched, and what
+    it returned behaves as the object itself on every later call -/
+theorem decorate_disabled_is_identity (s : St) (d : Deco) (t : Target) (hoff : enabledAt s.env = false) :
+    (step s (.decorate d t)).2 = .decorated true true ∧
+    (step s (.decorate d t)).1.handles = s.handles ++ [.plain] := by
+  have hen : isEnabledE s.env = some false := by rw [enabled_exact]; simpa [enabledAt] using hoff
+  simp [step, decorateNow, hen, disabled_is_identity d t _, finish, push]
+
+/-- the same for a decorator obtained earlier (whatever the switch said then) and applied now -/
+theorem apply_disabled_is_identity (s : St) (k : Nat) (f : Factory) (t : Target) (hf : s.factories[k]? = some f)
+    (hoff : enabledAt s.env = false) :
+    (step s (.apply k t)).2 = .decorated true true ∧
+    (step s (.apply k t)).1.handles = s.handles ++ [.plain] := by
+  have hen : isEnabledE s.env = some false := by rw [enabled_exact]; simpa [enabledAt] using hoff
+  simp [step, applyNow, hf, hen, disabled_is_identity f.deco t _, finish, push]
+
+-- `pedantic` on a function made with `exec` / a builtin / a partial (odd), switched off by `disable_pedantic()` and by the
+-- variable; `pedantic_class` on a function; then on again: not described
+example : run (init none) [.disable, .decorate .pedantic ⟨false, false, false, true⟩, .call 0 .positional, .setenv "0",
+      .decorate .pedanticDoc ⟨false, false, false, true⟩, .decorate .pedanticClass ⟨false, true, false, false⟩, .call 2 .wrongType,
+      .enable, .decorate .pedantic ⟨false, false, false, true⟩, .call 3 .good]
+    = [.none, .decorated true true, .called false false false, .none, .decorated true true, .decorated true true,
+       .called false false false, .none, .unspecified, .unspecified] := by decide
 
 /-- **C09, read at decoration — also for an object decorated before.**  Start in any state in which the targets are recorded
     (`Aligned`, e.g. the initial one), run any history `pre`, decorate a function `t` with `d0`, run any history `mid`
@@ -486,14 +533,14 @@ theorem first_result_unaffected_by_redecoration (s : St) (pre mid post : List Op
 
 -- decorate while on, switch off, decorate the same function again: identity, and no checks on the new result;
 -- the first wrapper keeps checking; switch on and decorate a third time: checks
-example : run (init none) [.decorate .pedantic ⟨false, true, false⟩, .disable, .redecorate .pedantic 0, .call 1 .wrongType, .call 0 .wrongType,
+example : run (init none) [.decorate .pedantic ⟨false, true, false, false⟩, .disable, .redecorate .pedantic 0, .call 1 .wrongType, .call 0 .wrongType,
       .enable, .redecorate .pedanticDoc 0, .call 2 .positional]
     = [.decorated false true, .none, .decorated true true, .called false false false, .called true false false,
        .none, .decorated false true, .called true false false] := by decide
-example : run (init (some "0")) [.factory .pedantic, .decorate .pedantic ⟨false, false, false⟩, .enable, .reapply 0 0, .call 1 .positional, .call 0 .positional]
+example : run (init (some "0")) [.factory .pedantic, .decorate .pedantic ⟨false, false, false, false⟩, .enable, .reapply 0 0, .call 1 .positional, .call 0 .positional]
     = [.none, .decorated true true, .none, .decorated false true, .called true false false, .called false false false] := by decide
 -- a class is changed in place by its decorators: handing the same class object in again is outside the model
-example : run (init none) [.decorate .traceClass ⟨true, true, false⟩, .redecorate .traceClass 0] = [.decorated true false, .bad] := by decide
+example : run (init none) [.decorate .traceClass ⟨true, true, false, false⟩, .redecorate .traceClass 0] = [.decorated true false, .bad] := by decide
 
 /-! ## 3c. sub classes of decorated classes: inherited members, reached through the sub class and through its instances -/
 
@@ -501,8 +548,8 @@ example : run (init none) [.decorate .traceClass ⟨true, true, false⟩, .redec
     itself or of any class derived from it — as a function of the switch **when the base class was decorated** only -/
 def frozenMember (en : Bool) (d : Deco) (t : Target) (m : Member) (v : Via) (k : CallKind) : Obs :=
   if !hasMember t m then .bad
-  else if d.onClass != t.isClass then .bad
   else if !en then .called false false false
+  else if !fits d t then .unspecified
   else if d.requiresDoc && !t.hasDoc then .bad
   else effObsM d.effect m v k
 
@@ -510,26 +557,29 @@ theorem callObsM_closedMode (d : Deco) (t : Target) (en : Bool) (now : Option Bo
     (hm : hasMember t m = true) :
     callObsM (closedMode d t en) now m v k = frozenMember en d t m v k := by
   unfold closedMode closed frozenMember
-  by_cases h1 : (d.onClass != t.isClass) = true
-  · simp [h1, hm, callObsM]
-  · cases en
+  cases en
+  · simp [hm, callObsM]
+  · by_cases h1 : fits d t = true
+    · by_cases h2 : (d.requiresDoc && !t.hasDoc) = true
+      · simp [h1, h2, hm, callObsM]
+      · simp [h1, h2, hm, callObsM]
     · simp [h1, hm, callObsM]
-    · by_cases h2 : (d.requiresDoc && !t.hasDoc) = true
-      · simp [h1, h2, hm, callObsM]
-      · simp [h1, h2, hm, callObsM]
 
-/-- when does a decoration produce a live class / callable -/
+/-- a decoration result the model describes as a live class / callable -/
+def Mode.live (m : Mode) : Prop := m ≠ .dead ∧ m ≠ .unknown
+
+/-- when does a decoration produce a live class / callable (that the model describes): switched off — always, whatever the object
+    is; switched on — for an object the decorator is made for, unless a required docstring is missing -/
 theorem closedMode_live (d : Deco) (t : Target) (en : Bool) :
-    closedMode d t en ≠ .dead ↔ d.onClass = t.isClass ∧ (en = false ∨ (d.requiresDoc && !t.hasDoc) = false) := by
-  unfold closedMode closed
-  by_cases h1 : d.onClass = t.isClass
-  · cases en
-    · simp [h1]
+    (closedMode d t en).live ↔ en = false ∨ (fits d t = true ∧ (d.requiresDoc && !t.hasDoc) = false) := by
+  unfold Mode.live closedMode closed
+  cases en
+  · simp
+  · by_cases h1 : fits d t = true
     · by_cases h2 : (d.requiresDoc && !t.hasDoc) = true
       · simp [h1, h2]
       · simp [h1, h2]
-  · have : (d.onClass != t.isClass) = true := by simpa using h1
-    simp [this, h1]
+    · simp [h1]
 
 /-- handle `h` stands for a class described by `t` whose members behave as `m` says -/
 def Carries (s : St) (h : Nat) (t : Target) (m : Mode) : Prop := s.handles[h]? = some m ∧ s.targets[h]? = some (some t)
@@ -549,14 +599,17 @@ theorem carries_decorate (s : St) (ha : Aligned s) (d : Deco) (t : Target) :
 /-- **a sub class inherits the decided members**: deriving a class from a live class handle — at any time — yields a handle
     that carries exactly what its base carries -/
 theorem carries_subclass (s : St) (ha : Aligned s) (h : Nat) (t : Target) (m : Mode) (hc : Carries s h t m)
-    (htc : t.isClass = true) (hm : m ≠ .dead) :
+    (htc : t.isClass = true) (hto : t.odd = false) (hm : m.live) :
     (step s (.subclass h)).2 = .derived ∧ Carries (step s (.subclass h)).1 s.handles.length t m := by
-  have hne : (m != Mode.dead) = true := by simpa using hm
   have hl : s.handles.length = s.targets.length := ha.symm
   obtain ⟨h1, h2⟩ := hc
-  refine ⟨by simp [step, h1, h2, htc, hne], ?_, ?_⟩
-  · simp [step, h1, h2, htc, hne, push]
-  · simp [step, h1, h2, htc, hne, push, hl]
+  obtain ⟨hm1, hm2⟩ := hm
+  cases m with
+  | dead => exact absurd rfl hm1
+  | unknown => exact absurd rfl hm2
+  | plain => exact ⟨by simp [step, h1, h2, htc, hto], by simp [step, h1, h2, htc, hto, push], by simp [step, h1, h2, htc, hto, push, hl]⟩
+  | frozen e => exact ⟨by simp [step, h1, h2, htc, hto], by simp [step, h1, h2, htc, hto, push], by simp [step, h1, h2, htc, hto, push, hl]⟩
+  | dynamic e => exact ⟨by simp [step, h1, h2, htc, hto], by simp [step, h1, h2, htc, hto, push], by simp [step, h1, h2, htc, hto, push, hl]⟩
 
 /-- a member reached through a handle that carries the result of a decoration -/
 theorem callm_carried (s : St) (h : Nat) (d : Deco) (t : Target) (en : Bool) (hc : Carries s h t (closedMode d t en))
@@ -589,14 +642,14 @@ theorem exec_descend (s : St) (h : Nat) (segs : List (List Op)) : exec s (descen
   | cons seg rest ih => simp [descendOps, descendEnd, exec_append, exec, ih]
 
 theorem carries_descend (s : St) (ha : Aligned s) (h : Nat) (t : Target) (m : Mode) (hc : Carries s h t m)
-    (htc : t.isClass = true) (hm : m ≠ .dead) (segs : List (List Op)) :
+    (htc : t.isClass = true) (hto : t.odd = false) (hm : m.live) (segs : List (List Op)) :
     Carries (descendEnd s h segs).1 (descendEnd s h segs).2 t m ∧ Aligned (descendEnd s h segs).1 := by
   induction segs generalizing s h with
   | nil => exact ⟨hc, ha⟩
   | cons seg rest ih =>
     have ha1 := exec_aligned s seg ha
     have hc1 := carries_exec hc seg
-    exact ih _ (step_aligned _ _ ha1) _ (carries_subclass _ ha1 h t m hc1 htc hm).2
+    exact ih _ (step_aligned _ _ ha1) _ (carries_subclass _ ha1 h t m hc1 htc hto hm).2
 
 /-- **C09, read at decoration — inherited members, all histories, any depth of inheritance.**  Start in any state with recorded
     targets (e.g. the initial one), run any history `pre`, apply any class decorator of the property to a class (state `s1`: the
@@ -607,8 +660,8 @@ theorem carries_descend (s : St) (ha : Aligned s) (h : Nat) (t : Target) (m : Mo
     the decoration of the base class and on nothing else — not on when the sub classes were created, not on when they were
     used for the first time, not on any toggle in `segs` or `post`. -/
 theorem read_at_decoration_inherited (s : St) (ha : Aligned s) (pre post : List Op) (segs : List (List Op)) (d : Deco) (t : Target)
-    (m : Member) (v : Via) (k : CallKind) (htc : t.isClass = true)
-    (hlive : closedMode d t (enabledAt (exec s pre).env) ≠ .dead) :
+    (m : Member) (v : Via) (k : CallKind) (htc : t.isClass = true) (hto : t.odd = false)
+    (hlive : (closedMode d t (enabledAt (exec s pre).env)).live) :
     let s1 := exec s pre
     let s2 := (step s1 (.decorate d t)).1
     lastObs s (pre ++ [.decorate d t] ++ descendOps s2 s1.handles.length segs ++ post
@@ -620,12 +673,13 @@ theorem read_at_decoration_inherited (s : St) (ha : Aligned s) (pre post : List 
   rw [e1, exec_descend]
   have ha1 : Aligned s1 := exec_aligned s pre ha
   have hc := carries_decorate s1 ha1 d t
-  have hd := (carries_descend s2 (step_aligned _ _ ha1) _ t _ hc htc hlive segs).1
+  have hd := (carries_descend s2 (step_aligned _ _ ha1) _ t _ hc htc hto hlive segs).1
   exact congrArg some (callm_carried _ _ d t _ (carries_exec hd post) m v k)
 
 /-- the same for the plain call of the method `m` of a new instance (`call`) through the last class of the line -/
 theorem read_at_decoration_inherited_call (s : St) (ha : Aligned s) (pre post : List Op) (segs : List (List Op)) (d : Deco)
-    (t : Target) (k : CallKind) (htc : t.isClass = true) (hlive : closedMode d t (enabledAt (exec s pre).env) ≠ .dead) :
+    (t : Target) (k : CallKind) (htc : t.isClass = true) (hto : t.odd = false)
+    (hlive : (closedMode d t (enabledAt (exec s pre).env)).live) :
     let s1 := exec s pre
     let s2 := (step s1 (.decorate d t)).1
     lastObs s (pre ++ [.decorate d t] ++ descendOps s2 s1.handles.length segs ++ post
@@ -637,7 +691,7 @@ theorem read_at_decoration_inherited_call (s : St) (ha : Aligned s) (pre post : 
   rw [e1, exec_descend]
   have ha1 : Aligned s1 := exec_aligned s pre ha
   have hc := carries_decorate s1 ha1 d t
-  have hd := (carries_descend s2 (step_aligned _ _ ha1) _ t _ hc htc hlive segs).1
+  have hd := (carries_descend s2 (step_aligned _ _ ha1) _ t _ hc htc hto hlive segs).1
   exact congrArg some (call_carried _ _ d t _ (carries_exec hd post) k)
 
 /-- reaching a member never changes the state (in particular: no decision is taken on first access) — so "used for the first
@@ -648,26 +702,27 @@ theorem first_use_is_no_event (s : St) (h : Nat) (m : Member) (v : Via) (k : Cal
 
 -- the missed scenario: class with a class method decorated while on, switch off, class method reached for the first time
 -- through a sub class that was not used before (created before / after the toggle), then on again
-example : run (init none) [.decorate .pedanticClass ⟨true, true, true⟩, .subclass 0, .disable, .subclass 0,
+example : run (init none) [.decorate .pedanticClass ⟨true, true, true, false⟩, .subclass 0, .disable, .subclass 0,
       .callm 1 .classMethod .cls .wrongType, .callm 2 .classMethod .cls .wrongType, .callm 2 .classMethod .inst .positional,
       .enable, .subclass 1, .callm 3 .staticMethod .inst .wrongType, .callm 3 .propGet .inst .wrongType, .callm 3 .propSet .cls .good]
     = [.decorated true false, .derived, .none, .derived, .called true false false, .called true false false, .called true false false,
        .none, .derived, .called true false false, .called true false false, .called false false false] := by decide
 -- decorated while off: nothing is imposed on the sub class either, whatever the switch says later
-example : run (init (some "0")) [.decorate (.forAll .pedantic) ⟨true, true, true⟩, .enable, .subclass 0, .callm 1 .classMethod .cls .wrongType,
+example : run (init (some "0")) [.decorate (.forAll .pedantic) ⟨true, true, true, false⟩, .enable, .subclass 0, .callm 1 .classMethod .cls .wrongType,
       .callm 1 .method .inst .positional]
     = [.decorated true true, .none, .derived, .called false false false, .called false false false] := by decide
 -- hypotheses of `read_at_decoration_inherited` are met by a concrete two-level line of descent
-example : closedMode .pedanticClassDoc ⟨true, true, true⟩ (enabledAt (exec (init none) [.enable]).env) ≠ .dead := by decide
-example : lastObs (init none) ([.enable] ++ [.decorate .pedanticClassDoc ⟨true, true, true⟩]
-      ++ descendOps (step (exec (init none) [.enable]) (.decorate .pedanticClassDoc ⟨true, true, true⟩)).1 0 [[.disable], [.enable, .disable]]
+example : (closedMode .pedanticClassDoc ⟨true, true, true, false⟩ (enabledAt (exec (init none) [.enable]).env)).live := by
+  unfold Mode.live; decide
+example : lastObs (init none) ([.enable] ++ [.decorate .pedanticClassDoc ⟨true, true, true, false⟩]
+      ++ descendOps (step (exec (init none) [.enable]) (.decorate .pedanticClassDoc ⟨true, true, true, false⟩)).1 0 [[.disable], [.enable, .disable]]
       ++ [.setenv "0"] ++ [.callm 2 .classMethod .cls .wrongType]) = some (.called true false false) := by decide
 -- a function, or a decoration that raised, has no sub class; a class without the member: `bad`
-example : run (init none) [.decorate .pedantic ⟨false, true, false⟩, .subclass 0, .decorate .pedanticClassDoc ⟨true, false, true⟩, .subclass 2,
-      .decorate .traceClass ⟨true, true, false⟩, .callm 4 .classMethod .cls .good, .callm 4 .method .cls .good]
+example : run (init none) [.decorate .pedantic ⟨false, true, false, false⟩, .subclass 0, .decorate .pedanticClassDoc ⟨true, false, true, false⟩, .subclass 2,
+      .decorate .traceClass ⟨true, true, false, false⟩, .callm 4 .classMethod .cls .good, .callm 4 .method .cls .good]
     = [.decorated false true, .bad, .decoRaised, .bad, .decorated true false, .bad, .called false true false] := by decide
 -- trace / timer / foreign wrappers: class and static methods reached through an instance raise a TypeError (finding of C18)
-example : run (init none) [.decorate .traceClass ⟨true, true, true⟩, .subclass 0, .callm 1 .staticMethod .inst .good, .callm 1 .staticMethod .cls .good]
+example : run (init none) [.decorate .traceClass ⟨true, true, true, false⟩, .subclass 0, .callm 1 .staticMethod .inst .good, .callm 1 .staticMethod .cls .good]
     = [.decorated true false, .derived, .callError, .called false true false] := by decide
 
 /-! ## 4. the model satisfies the specification on every history -/
@@ -727,28 +782,31 @@ theorem rel_record (t : Option Target) (p : St × Obs) (q : SSt × SObs) (r : Re
 theorem finish_push (s : St) (o : DecoOut) : ∃ m, (finish s o).1 = push s m := by
   cases o <;> exact ⟨_, rfl⟩
 
+/-- the specification's own wording of "not an object the decorator is made for" says the same as the model's `fits` -/
+theorem spec_misfit (d : Deco) (t : Target) : (t.odd || d.onClass != t.isClass) = !fits d t := by
+  unfold fits; cases t.odd <;> cases d.onClass <;> cases t.isClass <;> rfl
+
 /-- one decoration, model against specification -/
 theorem decorate_sim (s : St) (ss : SSt) (r : Rel s ss) (d : Deco) (t : Target) (enF : Option Bool) :
     Rel (finish s (decoOut d t enF (enabledAt s.env))).1 (specDecorate ss d t).1 ∧
     agrees (finish s (decoOut d t enF (enabledAt s.env))).2 (specDecorate ss d t).2 = true := by
   rw [decoOut_closed]
-  unfold specDecorate closed
-  by_cases hk : (d.onClass != t.isClass) = true
-  · simp only [hk, ↓reduceIte, finish]
-    exact ⟨rel_push _ _ _ _ r rfl, by decide⟩
-  · simp only [hk, Bool.false_eq_true, ↓reduceIte]
-    cases hc : claim ss.env with
-    | none =>
-      obtain ⟨m, hm⟩ := finish_push s (if (!enabledAt s.env) = true then DecoOut.ok true true Mode.plain
-          else if (d.requiresDoc && !t.hasDoc) = true then DecoOut.raised
-          else DecoOut.ok d.onClass (!d.onClass) (Mode.frozen d.effect))
-      simp only [hm]
-      exact ⟨rel_push _ _ _ _ r trivial, rfl⟩
-    | some b =>
-      have hen : enabledAt s.env = b := r.env b hc
-      cases b
-      · simp only [hen, Bool.not_false, ↓reduceIte, finish]
-        exact ⟨rel_push _ _ _ _ r rfl, by decide⟩
+  unfold specDecorate
+  cases hc : claim ss.env with
+  | none =>
+    obtain ⟨m, hm⟩ := finish_push s (closed d t (enabledAt s.env))
+    simp only [hm]
+    exact ⟨rel_push _ _ _ _ r trivial, rfl⟩
+  | some b =>
+    have hen : enabledAt s.env = b := r.env b hc
+    unfold closed
+    cases b
+    · simp only [hen, Bool.not_false, ↓reduceIte, finish]
+      exact ⟨rel_push _ _ _ _ r rfl, by decide⟩
+    · rw [spec_misfit]
+      cases hf : fits d t
+      · simp only [hen, Bool.not_true, Bool.not_false, Bool.false_eq_true, ↓reduceIte, finish]
+        exact ⟨rel_push _ _ _ _ r trivial, rfl⟩
       · by_cases hd : (d.requiresDoc && !t.hasDoc) = true
         · simp only [hen, Bool.not_true, Bool.false_eq_true, ↓reduceIte, hd, finish]
           exact ⟨rel_push _ _ _ _ r rfl, by decide⟩
@@ -847,7 +905,7 @@ theorem step_sim (s : St) (ss : SSt) (r : Rel s ss) (op : Op) :
         cases ot with
         | none => exact ⟨dead, rfl⟩
         | some t =>
-          by_cases hc : t.isClass = true
+          by_cases hc : (t.isClass && !t.odd) = true
           · simp only [hc, ↓reduceIte]
             cases sh with
             | identity =>
@@ -860,12 +918,12 @@ theorem step_sim (s : St) (ss : SSt) (r : Rel s ss) (op : Op) :
               subst hm
               exact ⟨rel_record (some t) (push s .dead, Obs.bad) (spush ss .dead, SObs.exact .bad) (rel_push _ _ _ _ r rfl), rfl⟩
             | unclaimed =>
-              by_cases hd : m = .dead
-              · subst hd
-                exact ⟨rel_record (some t) (push s .dead, Obs.bad) (spush ss .unclaimed, SObs.unclaimed) (rel_push _ _ _ _ r trivial), rfl⟩
-              · have : (m != Mode.dead) = true := by simpa using hd
-                simp only [this, ↓reduceIte]
-                exact ⟨rel_record (some t) (push s m, Obs.derived) (spush ss .unclaimed, SObs.unclaimed) (rel_push _ _ _ _ r trivial), rfl⟩
+              cases m with
+              | dead => exact ⟨rel_record (some t) (push s .dead, Obs.bad) (spush ss .unclaimed, SObs.unclaimed) (rel_push _ _ _ _ r trivial), rfl⟩
+              | unknown => exact ⟨rel_record (some t) (push s .unknown, Obs.unspecified) (spush ss .unclaimed, SObs.unclaimed) (rel_push _ _ _ _ r trivial), rfl⟩
+              | plain => exact ⟨rel_record (some t) (push s .plain, Obs.derived) (spush ss .unclaimed, SObs.unclaimed) (rel_push _ _ _ _ r trivial), rfl⟩
+              | frozen e => exact ⟨rel_record (some t) (push s (.frozen e), Obs.derived) (spush ss .unclaimed, SObs.unclaimed) (rel_push _ _ _ _ r trivial), rfl⟩
+              | dynamic e => exact ⟨rel_record (some t) (push s (.dynamic e), Obs.derived) (spush ss .unclaimed, SObs.unclaimed) (rel_push _ _ _ _ r trivial), rfl⟩
           · simp only [hc, Bool.false_eq_true, ↓reduceIte]; exact ⟨dead, rfl⟩
   | callm h m v k =>
     simp only [step, specStep, ← r.tg]
@@ -896,7 +954,7 @@ theorem run_refines_spec (e0 : Option String) (ops : List Op) :
     agreesAll (run (init e0) ops) (specRun (sinit e0) ops) = true :=
   run_sim (init e0) (sinit e0) ⟨envRel_same _, rfl, by simp [init, sinit, HR], rfl⟩ ops
 
-example : specRun (sinit none) [.disable, .decorate .pedantic ⟨false, false, false⟩, .enable, .call 0 .wrongType, .decorate .pedantic ⟨false, true, false⟩, .call 1 .wrongType]
+example : specRun (sinit none) [.disable, .decorate .pedantic ⟨false, false, false, false⟩, .enable, .call 0 .wrongType, .decorate .pedantic ⟨false, true, false, false⟩, .call 1 .wrongType]
     = [.exact .none, .exact (.decorated true true), .exact .none, .exact (.called false false false), .enabledDeco, .exact (.called true false false)] := by decide
 
 end PedVerif.Switch
